@@ -52,11 +52,65 @@ struct Layout {
     hash_len: usize,
 }
 
-struct Built { bytes: Vec<u8>, source: Vec<u8>, header_len: usize }
+struct Built { bytes: Vec<u8>, source: Vec<u8>, header_len: usize, want: Want }
+
+/// what the accessors of an opened `Archive` must report, computed from the encoder's inputs only
+#[derive(Clone, Debug, Default, PartialEq)]
+struct Want {
+    total_chunks: usize,
+    unique_chunks: usize,
+    compressed_size: u64,
+    chunk_data_offset: u64,
+    descriptors: Vec<(Vec<u8>, usize, u64, u32)>,   // checksum, stored size, absolute offset, source size
+    total_source_size: u64,
+    source_checksum: Vec<u8>,
+    header_checksum: Vec<u8>,
+    header_size: usize,
+    chunk_hash_length: usize,
+    compression: Option<(String, u32)>,
+    version: String,
+    metadata: Vec<(String, Vec<u8>)>,
+    source_chunks: Vec<(u64, usize)>,               // (source offset, descriptor index) in rebuild order
+}
+
+fn observed<R>(a: &Archive<R>) -> Want {
+    let descs = a.chunk_descriptors();
+    let mut metadata: Vec<(String, Vec<u8>)> = a.metadata_iter().map(|(k, v)| (k.to_string(), v.to_vec())).collect();
+    metadata.sort();
+    Want {
+        total_chunks: a.total_chunks(),
+        unique_chunks: a.unique_chunks(),
+        compressed_size: a.compressed_size(),
+        chunk_data_offset: a.chunk_data_offset(),
+        descriptors: descs.iter().map(|d| (d.checksum.slice().to_vec(), d.archive_size, d.archive_offset, d.source_size)).collect(),
+        total_source_size: a.total_source_size(),
+        source_checksum: a.source_checksum().slice().to_vec(),
+        header_checksum: a.header_checksum().slice().to_vec(),
+        header_size: a.header_size(),
+        chunk_hash_length: a.chunk_hash_length(),
+        // the fields of Compression are crate-private: read algorithm and level off its Debug text
+        compression: a.chunk_compression().map(|c| {
+            let t = format!("{:?}", c);
+            let algo = ["Brotli", "Lzma", "Zstd"].iter().find(|n| t.contains(*n)).map(|n| n.to_string()).unwrap_or(t.clone());
+            let digits: String = t.chars().rev().skip_while(|ch| !ch.is_ascii_digit()).take_while(|ch| ch.is_ascii_digit()).collect::<String>().chars().rev().collect();
+            (algo, digits.parse().unwrap_or(u32::MAX - 1))
+        }),
+        version: a.built_with_version().to_string(),
+        metadata,
+        source_chunks: a.iter_source_chunks().map(|(o, d)| (o, descs.iter().position(|x| std::ptr::eq(x, d)).unwrap_or(usize::MAX))).collect(),
+    }
+}
 
 /// Independent encoder, written from header.rs' table and chunk_dictionary.proto.
 /// `chunks`: the source as a list of chunk byte strings (duplicates allowed).
 fn encode(chunks: &[Vec<u8>], lay: &Layout, params: dict::ChunkerParameters, brotli: bool) -> Built {
+    encode_ext(chunks, lay, params, brotli, 6, false)
+}
+
+/// `level`: the compression level recorded in the dictionary (informational for a reader: brotli streams are
+/// self-describing); `unknown_fields`: append dictionary fields this schema version does not know (protobuf
+/// readers must skip them) and a metadata entry.
+fn encode_ext(chunks: &[Vec<u8>], lay: &Layout, params: dict::ChunkerParameters, brotli: bool, level: u32, unknown_fields: bool) -> Built {
     let source: Vec<u8> = chunks.iter().flat_map(|c| c.iter().copied()).collect();
     // unique chunks in first-occurrence order
     let mut uniq: Vec<Vec<u8>> = vec![];
@@ -92,30 +146,59 @@ fn encode(chunks: &[Vec<u8>], lay: &Layout, params: dict::ChunkerParameters, bro
     }).collect();
     let mut p = params;
     p.chunk_hash_length = lay.hash_len as u32;
+    let mut metadata = std::collections::BTreeMap::new();
+    if unknown_fields { metadata.insert("verif-key".to_string(), vec![0u8, 255, 7]); metadata.insert(String::new(), vec![]); }
     let d = dict::ChunkDictionary {
         application_version: "companion".into(),
         source_checksum: b2(&source),
         source_total_size: source.len() as u64,
         chunker_params: Some(p),
-        chunk_compression: Some(dict::ChunkCompression { compression: if brotli { 3 } else { 0 }, compression_level: if brotli { 6 } else { 0 } }),
-        rebuild_order: rebuild,
-        chunk_descriptors: descriptors,
-        metadata: Default::default(),
+        chunk_compression: Some(dict::ChunkCompression { compression: if brotli { 3 } else { 0 }, compression_level: if brotli { level } else { 0 } }),
+        rebuild_order: rebuild.clone(),
+        chunk_descriptors: descriptors.clone(),
+        metadata: metadata.clone(),
     };
-    // header length is independent of the offset value (fixed 8 bytes)
-    let probe = bitar::header::build(&d, Some(0)).unwrap();
-    let header_len = probe.len();
-    let mut header = bitar::header::build(&d, Some((header_len + lay.slack) as u64)).unwrap();
-    if lay.legacy_magic {
-        header[..6].copy_from_slice(b"\0BITA1");
-        let n = header.len();
-        let sum = b2(&header[..n - 64]);
-        header[n - 64..].copy_from_slice(&sum);
+    // header written from the table in header.rs (not with header::build): magic | dictionary size u64 le |
+    // dictionary | chunk data offset u64 le | blake2b-512 of everything before
+    let mut dict_buf = prost::Message::encode_to_vec(&d);
+    if unknown_fields {
+        dict_buf.extend([0xf8, 0x06, 0x2a]);                       // field 111, varint 42
+        dict_buf.extend([0x82, 0x07, 0x03, b'x', b'y', b'z']);     // field 112, length-delimited "xyz"
+        dict_buf.extend([0x8d, 0x07, 1, 2, 3, 4]);                 // field 113, fixed32
     }
+    let header_len = 6 + 8 + dict_buf.len() + 8 + 64;
+    let mut header: Vec<u8> = if lay.legacy_magic { b"\0BITA1".to_vec() } else { b"BITA1\0".to_vec() };
+    header.extend((dict_buf.len() as u64).to_le_bytes());
+    header.extend(&dict_buf);
+    header.extend(((header_len + lay.slack) as u64).to_le_bytes());
+    let sum = b2(&header);
+    header.extend(&sum);
+    assert_eq!(header.len(), header_len);
+    let chunk_data_offset = (header_len + lay.slack) as u64;
+    let mut md: Vec<(String, Vec<u8>)> = metadata.into_iter().collect();
+    md.sort();
+    let mut source_chunks = vec![];
+    { let mut off = 0u64; for &i in &rebuild { source_chunks.push((off, i as usize)); off += uniq[i as usize].len() as u64; } }
+    let want = Want {
+        total_chunks: chunks.len(),
+        unique_chunks: uniq.len(),
+        compressed_size: stored.iter().map(|s| s.len() as u64).sum(),
+        chunk_data_offset,
+        descriptors: descriptors.iter().map(|d| (d.checksum.clone(), d.archive_size as usize, chunk_data_offset + d.archive_offset, d.source_size)).collect(),
+        total_source_size: source.len() as u64,
+        source_checksum: b2(&source),
+        header_checksum: sum,
+        header_size: header_len,
+        chunk_hash_length: lay.hash_len,
+        compression: if brotli { Some(("Brotli".to_string(), level)) } else { None },
+        version: "companion".to_string(),
+        metadata: md,
+        source_chunks,
+    };
     let mut bytes = header;
     bytes.extend(std::iter::repeat(0xAAu8).take(lay.slack));
     bytes.extend(data_area);
-    Built { bytes, source, header_len }
+    Built { bytes, source, header_len, want }
 }
 
 fn default_params() -> dict::ChunkerParameters {
@@ -209,7 +292,17 @@ fn c17_layouts() {
                         for (brotli, cm) in [(false, 0u32), (true, 0b0101), (true, 0b1111)] {
                             for hash_len in [4usize, 17, 64] {
                                 let lay = Layout { legacy_magic, slack, order: order.clone(), gap, compress: (0..nu).map(|i| cm & (1 << i) != 0).collect(), hash_len };
-                                let built = encode(&chunks, &lay, default_params(), brotli);
+                                let level = [6u32, 0, 12, u32::MAX, 1][cases % 5];
+                                let built = encode_ext(&chunks, &lay, default_params(), brotli, level, cases % 3 == 1);
+                                match rt.block_on(Archive::try_init(IoReader::new(Cursor::new(built.bytes.clone())))) {
+                                    Ok(a) => {
+                                        let got = observed(&a);
+                                        if got != built.want {
+                                            witness("C17", "an opened format-conforming archive reports values that differ from the encoder's inputs", format!("layout {:?} chunks {} level {} unknown_fields {} reported {:?} expected {:?}", lay, n, level, cases % 3 == 1, got, built.want));
+                                        }
+                                    }
+                                    Err(e) => witness("C17", "a format-conforming archive is not opened", format!("layout {:?} chunks {} level {} unknown_fields {} error {:?}", lay, n, level, cases % 3 == 1, e)),
+                                }
                                 let local = rt.block_on(clone_with(IoReader::new(Cursor::new(built.bytes.clone()))));
                                 if local.as_ref().ok() != Some(&built.source) {
                                     witness("C17", "local clone of a format-conforming archive differs from the source / fails", format!("layout {:?} chunks {} result {:?}", lay, n, local.as_ref().map(|v| v.len())));
